@@ -316,8 +316,9 @@ def divmod_rounded(rec, seed):
       continue
     a, b = e.notes['a'], e.notes['b']
     q, r_ = p.value
-    goal = z3.And(a.t == T(q) * b.t + T(r_), 2 * T(r_) < b.t,
-                  -2 * T(r_) <= b.t + 1)
+    # q = round(a/b) (ties either way), r = a - q*b:  |2r| <= b
+    goal = z3.And(a.t == T(q) * b.t + T(r_), 2 * T(r_) <= b.t,
+                  -2 * T(r_) <= b.t)
     _prove(rec, e, goal, 'DivmodRounded', cexs, 'rounded')
     r, m = e.feasible()
     if r == 'sat':
@@ -326,8 +327,7 @@ def divmod_rounded(rec, seed):
   rec.reach(1, min(reach, 1))
   for tag, cex in cexs[:2]:
     q, r_ = nt.DivmodRounded(cex['a'], cex['b'])
-    bad = not (cex['a'] == q * cex['b'] + r_ and 2 * r_ < cex['b'] and
-               -2 * r_ <= cex['b'] + 1)
+    bad = not (cex['a'] == q * cex['b'] + r_ and abs(2 * r_) <= cex['b'])
     rec.replayed()
     rec.violation('ntheory_util.DivmodRounded', tag,
                   'not the rounded quotient/remainder', cex,
@@ -340,7 +340,7 @@ def replay_dr(a, b):
   a, b = int(a), int(b)
   q, r_ = nt.DivmodRounded(a, b)
   print('DivmodRounded(%d,%d) = (%d,%d)' % (a, b, q, r_))
-  return not (a == q * b + r_ and 2 * r_ < b and -2 * r_ <= b + 1)
+  return not (a == q * b + r_ and abs(2 * r_) <= b)
 
 
 def product_trees(rec, seed, k):
@@ -535,155 +535,108 @@ def replay_pa(a, n):
 
 
 # ---------------------------------------------------------------------------
-# rational linear solver (bit-vector integers, exact fractions)
+# rational linear solver
 
 
-class Frac:
-  """Exact fraction num/den over proxies (stands for gmpy.mpq); den != 0."""
-
-  def __init__(self, num, den=1):
-    self.n = num
-    self.d = den
-
-  @staticmethod
-  def of(x):
-    return x if isinstance(x, Frac) else Frac(x, 1)
-
-  def __add__(self, o):
-    o = Frac.of(o)
-    return Frac(self.n * o.d + o.n * self.d, self.d * o.d)
-
-  __radd__ = __add__
-
-  def __sub__(self, o):
-    o = Frac.of(o)
-    return Frac(self.n * o.d - o.n * self.d, self.d * o.d)
-
-  def __rsub__(self, o):
-    return Frac.of(o) - self
-
-  def __mul__(self, o):
-    o = Frac.of(o)
-    return Frac(self.n * o.n, self.d * o.d)
-
-  __rmul__ = __mul__
-
-  def __neg__(self):
-    return Frac(-self.n, self.d)
+def _goal_ax_eq_b(A_terms, b_terms, xs, real):
+  """A*x == b over the rationals; A_terms/b_terms z3 terms (Int or Real)."""
+  goal = z3.BoolVal(True)
+  xt = [pysym._to_sreal(x).t for x in xs]
+  conv = (lambda t: t) if real else z3.ToReal
+  for row, bi in zip(A_terms, b_terms):
+    lhs = z3.RealVal(0)
+    for a, x in zip(row, xt):
+      lhs = lhs + conv(a) * x
+    goal = z3.And(goal, lhs == conv(bi))
+  return goal
 
 
-class _FracGmpy(stubs.GmpyStub):
-
-  @staticmethod
-  def mpq(a, b=1):
-    stubs.USED.add('gmpy.mpq: exact fraction (numerator, denominator) pair')
-    a = Frac.of(a)
-    b = Frac.of(b)
-    return Frac(a.n * b.d, a.d * b.n)
-
-
-def _mat_inputs(e, rows, cols, lo, hi, width, templates=None):
-  A = [[bvar(e, 'a%d_%d' % (i, j), width, lo=lo, hi=hi + 1)
-        for j in range(cols)] for i in range(rows)]
-  x0 = [bvar(e, 'x%d' % j, width, lo=lo, hi=hi + 1) for j in range(cols)]
-  b = []
-  for i in range(rows):
-    s = 0
-    for j in range(cols):
-      s = s + A[i][j] * x0[j]
-    b.append(s)
-  return A, x0, b
-
-
-def solve_right(rec, seed, rows, cols, lo, hi, max_paths, hunting=False,
-                zero_rows=(), dup_rows=(), width=32):
-  """zero_rows: row indices forced to zero; dup_rows: (i, j, c): row i = c *
-  row j (templates that steer the exploration to rank-deficient systems)."""
+def solve_right_field(rec, seed, rows, cols):
+  """Row logic of echelon_form/solve_right over an abstract field (reals)."""
   _, la = _mods()
   rec.functions('paranoid_crypto.lib.linalg_util:solve_right',
                 'paranoid_crypto.lib.linalg_util:echelon_form',
                 'paranoid_crypto.lib.linalg_util:upper_triangular_solve')
-  tmpl = ''
-  if zero_rows or dup_rows:
-    tmpl = '; template: zero rows %r, multiples %r' % (list(zero_rows),
-                                                      list(dup_rows))
-  rec.bounds('all %dx%d integer matrices A and solutions x0 with entries in '
-             '[%d, %d], b := A*x0 (consistent by construction)%s%s; %d-bit '
-             'integers with no-overflow side conditions' %
-             (rows, cols, lo, hi, tmpl,
-              '; path budget %d, bug hunting only' % max_paths
-              if hunting else '; all paths', width))
+  rec.bounds('every %dx%d matrix A and vector x0 over an ordered field '
+             '(z3 Real), b := A*x0; all paths (zero pivots, zero rows, '
+             'dependent rows arise as forks on == 0)' % (rows, cols))
+  stubs.USED.add('"//" on field elements = exact division (assumes the '
+                 'fraction-free integer divisions are exact; the integer '
+                 'semantics is decided by the solve_right_int/family jobs)')
   cexs = []
   reach = {}
 
   def run(e):
-    A, x0, b = _mat_inputs(e, rows, cols, lo, hi, width)
-    for i in zero_rows:
+    A = [[common.rvar(e, 'a%d_%d' % (i, j)) for j in range(cols)]
+         for i in range(rows)]
+    x0 = [common.rvar(e, 'x%d' % j) for j in range(cols)]
+    b = []
+    for i in range(rows):
+      s = 0
       for j in range(cols):
-        e.assume(A[i][j].t == 0)
-    for (i, j, c) in dup_rows:
-      for k in range(cols):
-        e.assume(A[i][k].t == c * A[j][k].t)
-    e.notes.update(A=A, x0=x0, b=b)
-    Ac = [list(r) for r in A]
-    bc = list(b)
-    return la.solve_right(Ac, bc)
+        s = s + A[i][j] * x0[j]
+      b.append(s)
+    e.notes.update(A=A, b=b, x0=x0)
+    return la.solve_right([list(r) for r in A], list(b))
 
-  try:
-    with stubs.patched(la, gmpy=_FracGmpy(), all=_sym_all, sum=_sym_sum):
-      for p in pysym.explore(run, max_paths=max_paths):
-        e = p.eng
-        rec.path(p.kind)
-        if p.kind == 'abort':
-          rec.inconclusive('path aborted: %s' % p.value)
-          continue
-        A, b = e.notes['A'], e.notes['b']
-        if p.kind == 'raise':
-          r, m = e.feasible()
-          if r == 'sat':
-            cexs.append(('raised %r' % (p.value,), inputs_of(e, m)))
-          elif r != 'unsat':
-            rec.inconclusive('exception path undecided')
-          continue
-        xs = p.value
-        if xs is None:
-          cls = 'none'
+  with stubs.patched(la, gmpy=stubs.GMPY, all=_sym_all, sum=_sym_sum):
+    for p in pysym.explore(run, max_paths=200000):
+      e = p.eng
+      rec.path(p.kind)
+      if p.kind == 'abort':
+        rec.inconclusive('path aborted: %s' % p.value)
+        continue
+      A, b = e.notes['A'], e.notes['b']
+      if p.kind == 'raise':
+        r, m = e.feasible()
+        if r == 'sat':
+          cexs.append(('raised %r' % (p.value,), inputs_of(e, m)))
+        elif r != 'unsat':
+          rec.inconclusive('exception path undecided')
+        continue
+      if p.value is None:
+        cls = 'none'
+      else:
+        cls = 'solution'
+        if len(p.value) != cols:
+          goal = z3.BoolVal(False)
         else:
-          cls = 'solution'
-          if not common.overflow_free(rec, e, 'solve_right'):
-            continue
-          goal = z3.BoolVal(len(xs) == cols)
-          if len(xs) == cols:
-            # oracle arithmetic in 3x width (cannot wrap for these sizes)
-            W3 = 3 * width
-            sx = lambda v: z3.SignExt(W3 - width, TB(v, width))
-            fr = [Frac.of(x) for x in xs]
-            for i in range(rows):
-              num = z3.BitVecVal(0, W3)
-              den = z3.BitVecVal(1, W3)
-              for j in range(cols):
-                # num/den + A[i][j]*fr[j].n/fr[j].d
-                num = num * sx(fr[j].d) + sx(A[i][j]) * sx(fr[j].n) * den
-                den = den * sx(fr[j].d)
-              goal = z3.And(goal, num == sx(b[i]) * den, den != 0)
-          _prove(rec, e, goal, 'A*x == b %dx%d' % (rows, cols), cexs,
-                 'non_solution', timeout_ms=120000)
-        if cls not in reach:
-          r, m = e.feasible()
-          if r == 'sat':
-            reach[cls] = inputs_of(e, m)
-            rec.sample(dict(fn='solve_right', shape=[rows, cols], cls=cls,
-                            witness=reach[cls]))
-  except pysym.PathAbort as ab:
-    if hunting and 'path budget' in ab.reason:
-      rec.note('path budget exhausted: bug hunting only, no pass claimed')
-    else:
-      raise
-  rec.reach(1, 1 if 'solution' in reach else 0)
+          goal = _goal_ax_eq_b([[x.t for x in r] for r in A],
+                               [T(x) for x in b], p.value, True)
+        _prove(rec, e, goal, 'field A*x == b %dx%d' % (rows, cols), cexs,
+               'non_solution', timeout_ms=120000)
+      if cls not in reach:
+        r, m = e.feasible()
+        if r == 'sat':
+          reach[cls] = True
+          rec.sample(dict(fn='solve_right(field)', shape=[rows, cols],
+                          cls=cls, witness=inputs_of(e, m)))
+  rec.reach(2, len(reach))
+  _report_linalg(rec, cexs, rows, cols, rational=True)
+
+
+def _frac(v):
+  from fractions import Fraction  # pylint: disable=g-import-not-at-top
+  if isinstance(v, tuple):
+    return Fraction(v[0], v[1])
+  return Fraction(v)
+
+
+def _report_linalg(rec, cexs, rows, cols, rational=False):
   seen = set()
   for tag, cex in cexs:
     Ac = [[cex['a%d_%d' % (i, j)] for j in range(cols)] for i in range(rows)]
     x0 = [cex['x%d' % j] for j in range(cols)]
+    if rational:
+      # scale the rational witness to integers (solution set is homogeneous
+      # in (A, b) row-wise; x0 scaled separately)
+      import math  # pylint: disable=g-import-not-at-top
+      Af = [[_frac(v) for v in r] for r in Ac]
+      xf = [_frac(v) for v in x0]
+      la_ = math.lcm(*[f.denominator for r in Af for f in r])
+      lx = math.lcm(*[f.denominator for f in xf])
+      Ac = [[int(f * la_) for f in r] for r in Af]
+      x0 = [int(f * lx) for f in xf]
     bad, tags = replay_solve(Ac, x0)
     key = (tag.split(' ')[0], tuple(tags))
     if key in seen:
@@ -698,6 +651,175 @@ def solve_right(rec, seed, rows, cols, lo, hi, max_paths, hunting=False,
                   dict(module='harness.props.c19', function='replay_solve_cmd',
                        args=dict(A=Ac, x0=x0)), bad, tags=tags)
     if len(seen) >= 4:
+      break
+
+
+def solve_right_int(rec, seed, rows, cols, lo, hi):
+  """Integer semantics, everything symbolic (small shapes only)."""
+  _, la = _mods()
+  rec.functions('paranoid_crypto.lib.linalg_util:solve_right',
+                'paranoid_crypto.lib.linalg_util:echelon_form',
+                'paranoid_crypto.lib.linalg_util:upper_triangular_solve')
+  rec.bounds('all %dx%d integer matrices A and solutions x0 with entries in '
+             '[%d, %d], b := A*x0; Python integer semantics (floor division '
+             'with Euclidean witnesses); all paths' % (rows, cols, lo, hi))
+  cexs = []
+  reach = {}
+
+  def run(e):
+    A = [[ivar(e, 'a%d_%d' % (i, j), lo=lo, hi=hi + 1) for j in range(cols)]
+         for i in range(rows)]
+    x0 = [ivar(e, 'x%d' % j, lo=lo, hi=hi + 1) for j in range(cols)]
+    b = []
+    for i in range(rows):
+      s = 0
+      for j in range(cols):
+        s = s + A[i][j] * x0[j]
+      b.append(s)
+    e.notes.update(A=A, b=b)
+    return la.solve_right([list(r) for r in A], list(b))
+
+  with stubs.patched(la, gmpy=stubs.GMPY, all=_sym_all, sum=_sym_sum):
+    for p in pysym.explore(run, max_paths=100000):
+      e = p.eng
+      rec.path(p.kind)
+      if p.kind == 'abort':
+        rec.inconclusive('path aborted: %s' % p.value)
+        continue
+      A, b = e.notes['A'], e.notes['b']
+      if p.kind == 'raise':
+        r, m = e.feasible()
+        if r == 'sat':
+          cexs.append(('raised %r' % (p.value,), inputs_of(e, m)))
+        elif r != 'unsat':
+          rec.inconclusive('exception path undecided')
+        continue
+      if p.value is None:
+        cls = 'none'
+      else:
+        cls = 'solution'
+        goal = _goal_ax_eq_b([[x.t for x in r] for r in A],
+                             [T(x) for x in b], p.value, False) if len(
+                                 p.value) == cols else z3.BoolVal(False)
+        _prove(rec, e, goal, 'A*x == b %dx%d' % (rows, cols), cexs,
+               'non_solution', timeout_ms=120000)
+      if cls not in reach:
+        r, m = e.feasible()
+        if r == 'sat':
+          reach[cls] = True
+          rec.sample(dict(fn='solve_right', shape=[rows, cols], cls=cls,
+                          witness=inputs_of(e, m)))
+  rec.reach(2, len(reach))
+  _report_linalg(rec, cexs, rows, cols)
+
+
+def _family(rows, cols, kind, seed, count, part, parts):
+  """Concrete coefficient matrices."""
+  import random  # pylint: disable=g-import-not-at-top
+  if kind == 'exhaustive11':
+    allm = itertools.product([-1, 0, 1], repeat=rows * cols)
+    for idx, flat in enumerate(allm):
+      if idx % parts == part:
+        yield [list(flat[i * cols:(i + 1) * cols]) for i in range(rows)]
+    return
+  rng = random.Random(seed * 7919 + rows * 100 + cols * 10 + part)
+  for _ in range(count):
+    A = [[rng.randint(-2, 2) for _ in range(cols)] for _ in range(rows)]
+    # inject 0..2 zero rows and 0..2 rows that are multiples / sums of others
+    for _ in range(rng.randint(0, 2)):
+      A[rng.randrange(rows)] = [0] * cols
+    for _ in range(rng.randint(0, 2)):
+      i, j, k = (rng.randrange(rows) for _ in range(3))
+      c, d = rng.randint(-2, 2), rng.randint(-1, 1)
+      A[i] = [c * A[j][t] + d * A[k][t] for t in range(cols)]
+    # sometimes force zero pivots
+    if rng.random() < 0.5:
+      for t in range(rng.randint(1, 2)):
+        A[rng.randrange(rows)][rng.randrange(min(2, cols))] = 0
+    yield A
+
+
+def solve_right_family(rec, seed, rows, cols, kind, count, part, parts):
+  """A ranges over a concrete family, x0 is universally quantified (unbounded
+  integers): the solver decides A*x == b for every right-hand side in the
+  column space."""
+  _, la = _mods()
+  rec.functions('paranoid_crypto.lib.linalg_util:solve_right',
+                'paranoid_crypto.lib.linalg_util:echelon_form',
+                'paranoid_crypto.lib.linalg_util:upper_triangular_solve')
+  rec.bounds('%dx%d coefficient matrices from family %s (part %d/%d%s), for '
+             'EVERY integer solution vector x0 (unbounded Int), b := A*x0; '
+             'Python integer semantics' %
+             (rows, cols, kind, part, parts,
+              '' if kind == 'exhaustive11' else ', %d seeded samples with '
+              'injected zero/dependent rows and zero pivots' % count))
+  cexs = []
+  nmat = 0
+  nsol = 0
+  with stubs.patched(la, gmpy=stubs.GMPY, all=_sym_all, sum=_sym_sum):
+    for Ac in _family(rows, cols, kind, seed, count, part, parts):
+      nmat += 1
+
+      def run(e, Ac=Ac):
+        x0 = [ivar(e, 'x%d' % j) for j in range(cols)]
+        b = []
+        for i in range(rows):
+          s = 0
+          for j in range(cols):
+            s = s + Ac[i][j] * x0[j]
+          b.append(s)
+        e.notes.update(b=b)
+        return la.solve_right([list(r) for r in Ac], list(b))
+
+      for p in pysym.explore(run, max_paths=64):
+        e = p.eng
+        rec.path(p.kind)
+        if p.kind == 'abort':
+          rec.inconclusive('path aborted: %s' % p.value)
+          continue
+        if p.kind == 'raise':
+          r, m = e.feasible()
+          if r == 'sat':
+            cexs.append(('raised %r' % (p.value,), Ac, inputs_of(e, m)))
+          elif r != 'unsat':
+            rec.inconclusive('exception path undecided')
+          continue
+        if p.value is None:
+          continue
+        nsol += 1
+        b = e.notes['b']
+        goal = _goal_ax_eq_b([[z3.IntVal(v) for v in r] for r in Ac],
+                             [T(x) for x in b], p.value, False) if len(
+                                 p.value) == cols else z3.BoolVal(False)
+        r, m, _ = e.prove(goal, timeout_ms=60000)
+        if r == 'proved':
+          rec.obligation('proved')
+        elif r == 'unknown':
+          rec.obligation('unknown', 'family %r' % (Ac,))
+        else:
+          cexs.append(('non_solution', Ac, inputs_of(e, m)))
+        if nsol <= 2:
+          rec.sample(dict(fn='solve_right', A=Ac, x0='symbolic',
+                          verdict=r))
+  rec.note('%d matrices, %d with a returned solution' % (nmat, nsol))
+  rec.reach(1, 1 if nsol else 0)
+  seen = set()
+  for tag, Ac, cex in cexs:
+    x0 = [cex['x%d' % j] for j in range(cols)]
+    bad, tags = replay_solve(Ac, x0)
+    key = (tag.split(' ')[0], tuple(tags))
+    if key in seen:
+      continue
+    seen.add(key)
+    rec.replayed()
+    rec.violation('linalg_util.solve_right', 'non_solution' if not
+                  tag.startswith('raised') else 'raises',
+                  'returned vector does not satisfy the consistent system'
+                  if not tag.startswith('raised') else tag,
+                  dict(A=Ac, x0=x0),
+                  dict(module='harness.props.c19', function='replay_solve_cmd',
+                       args=dict(A=Ac, x0=x0)), bad, tags=tags)
+    if len(seen) >= 6:
       break
 
 
@@ -780,4 +902,28 @@ def jobs(tier, seed):
   for m in ([1, 2, 3] if not thorough else [1, 2, 3, 4]):
     out.append(Job('pseudo_average_m%d' % m, pseudo_average,
                    dict(m=m, nmax=64), timeout=3000, cost=4**m))
+  # linear solver
+  shapes = [(2, 2), (3, 2), (3, 3)] + ([(4, 3), (4, 2), (5, 2)]
+                                       if thorough else [])
+  for (r, c) in shapes:
+    out.append(Job('solve_field_%dx%d' % (r, c), solve_right_field,
+                   dict(rows=r, cols=c), timeout=3000,
+                   cost=5**(r + c - 4)))
+  for (r, c) in [(2, 2), (3, 2)]:
+    out.append(Job('solve_int_%dx%d' % (r, c), solve_right_int,
+                   dict(rows=r, cols=c, lo=-2, hi=2), timeout=1200, cost=4))
+  parts = 8
+  for part in range(parts):
+    out.append(Job('solve_family_3x3_all_p%d' % part, solve_right_family,
+                   dict(rows=3, cols=3, kind='exhaustive11', count=0,
+                        part=part, parts=parts), timeout=3000, cost=40))
+  fam = [(4, 3), (5, 3), (5, 4), (6, 4)] + ([(7, 4), (6, 5), (8, 5)]
+                                            if thorough else [])
+  for (r, c) in fam:
+    for part in range(2 if not thorough else 8):
+      out.append(Job('solve_family_%dx%d_p%d' % (r, c, part),
+                     solve_right_family,
+                     dict(rows=r, cols=c, kind='templates',
+                          count=400 if not thorough else 2500, part=part,
+                          parts=1), timeout=3000, cost=20))
   return out
